@@ -230,3 +230,23 @@ func containsAny(s string, subs ...string) bool {
 func (e *NetEnv) Freeze() {
 	e.Srv.H.Frozen = true
 }
+
+// RunPlain runs f with deterministic crypto/rand, outside any bubble (render-only properties
+// that have no clock, peer or schedule).
+func RunPlain(t *testing.T, seed uint64, f func()) (panicked any, stack string) {
+	t.Run("run", func(t *testing.T) {
+		cryptotest.SetGlobalRandom(t, seed)
+		// inside a bubble so that time.Now (Date header, S/MIME signing time) is the virtual
+		// clock and the render is a pure function of the seed
+		synctest.Test(t, func(t *testing.T) {
+			defer func() {
+				if r := recover(); r != nil {
+					panicked = r
+					stack = string(debug.Stack())
+				}
+			}()
+			f()
+		})
+	})
+	return
+}
